@@ -1,6 +1,8 @@
 package main
 
 import (
+	"math"
+	"regexp"
 	"bytes"
 	"encoding/json"
 	"fmt"
@@ -463,11 +465,17 @@ func avFromDoc(d any) any {
 }
 
 func canonNum(f float64) string {
-	if f == float64(int64(f)) && f < 1<<53 && f > -(1<<53) {
-		return strconv.FormatInt(int64(f), 10)
+	if f == math.Trunc(f) && math.Abs(f) < 1e21 {
+		// integer-valued: plain digits, as encoding/json writes such a float64 and as an integer is written anyway
+		if f == 0 {
+			return "0"
+		}
+		return strconv.FormatFloat(f, 'f', -1, 64)
 	}
 	return strconv.FormatFloat(f, 'g', -1, 64)
 }
+
+var intLiteralRE = regexp.MustCompile(`^-?[0-9]+$`)
 
 // avFromJSON converts JSON text to AV with an order-preserving token reader
 // (the harness's own; deliberately not ordered.Map).
@@ -527,6 +535,13 @@ func avRead(d *json.Decoder) (any, error) {
 	case string:
 		return avStr(x), nil
 	case json.Number:
+		if lit := x.String(); intLiteralRE.MatchString(lit) {
+			// an integer literal is kept digit for digit (int64 values beyond 2^53 are exact in the library's output)
+			if lit == "-0" {
+				lit = "0"
+			}
+			return obj{"t": "n", "v": lit}, nil
+		}
 		f, err := x.Float64()
 		if err != nil {
 			return obj{"t": "n", "v": x.String()}, nil
